@@ -143,6 +143,10 @@ class WorldC13(World):
             if rng.random() < 0.4:
                 cond[j + '_kwargs'] = {'x': rng.choice([round(rng.uniform(0, 1), 3)] * 4 + [0.0, 1.0])}
         side = side_stream(rng)
+        if isinstance(T, list) and len(T) >= 2 and side.random() < 0.2:
+            # a heating / cooling cycle: up and down again, first and last temperature the same
+            up = T[:25]
+            T = up + up[-2::-1]
         if len(cond) > 1 and side.random() < 0.5:
             # keyword order is the caller's business: a per-species block may come before the general value it overrides
             keys = list(cond)
